@@ -131,17 +131,19 @@ def build_cantilever(form, load, place, seed=0, contact_gap=None):
 # ---------------------------------------------------------------------------------------------
 PM_LOADS = {
     # name: (initial height above the plane, force at t=0, force at t=1) in plane-frame components (e_z = normal)
-    "press": (0.2, (0.0, 0.0, 0.0), (0.3, -0.2, -3.0)),          # open -> closes during the load steps
+    "press": (0.04, (0.0, 0.0, 0.0), (0.3, -0.2, -3.0)),          # open -> closes during the load steps
     "lift": (0.0, (0.0, 0.0, -1.0), (0.2, 0.1, 2.5)),             # pressed at t=0 -> lifts off
-    "stay_open": (0.3, (0.0, 0.0, 0.0), (0.4, 0.3, 0.5)),         # never touches: la_N = 0 throughout
+    "stay_open": (0.06, (0.0, 0.0, 0.0), (0.4, 0.3, 0.5)),        # never touches: la_N = 0 throughout
     "stay_closed": (0.0, (0.0, 0.0, -0.5), (0.5, -0.3, -2.0)),    # always pressed: g_N = 0 throughout
-    "graze": (0.1, (0.0, 0.0, 0.0), (0.0, 0.0, -0.4)),            # spring alone stops the mass exactly at the plane (k*0.1 = 0.4)
+    "big": (0.02, (0.0, 0.0, 0.0), (1.5, -1.0, -6.0)),            # sliding along the plane
 }
+PM_STIFF = {"stiff": (40.0, 20.0, 30.0), "soft": (4.0, 2.0, 3.0)}   # 'soft': displacements of the order of the spring lengths
+#  (several equilibria, Newton may fail in a load step: natural early stops; no frame comparison there)
 
 
-def build_pm_plane(load, place, spring="force", seed=0):
-    """point mass above the placed plane z=0 (normal placed e_z), hanging on a linear spring (k=4) whose anchor is
-    1.0 above the initial position; spring: 'force' | 'compliance'"""
+def build_pm_plane(load, place, spring="force", seed=0, stiff="stiff"):
+    """point mass above the placed plane z=0 (normal placed e_z), held by three linear springs (PM_STIFF[stiff]) that are undeformed at
+    the initial position; spring: 'force' | 'compliance'"""
     from cardillo import System
     from cardillo.discrete import Frame, PointMass
     from cardillo.forces import Force
@@ -159,11 +161,15 @@ def build_pm_plane(load, place, spring="force", seed=0):
         r0 = c + A @ np.array([0.1, -0.2, h0 + R])
         pm = PointMass(1.0, q0=r0, name="pm")
         plane = Frame(r_OP=c, A_IB=A, name="plane")
-        anchor = Frame(r_OP=r0 + A @ np.array([0.0, 0.0, 1.0]), A_IB=A, name="anchor")
-        tpi = TwoPointInteraction(anchor, pm, name="tpi")
-        sp = Spring(tpi, 4.0, l_ref=1.0, compliance_form=(spring == "compliance"), name="spring")
+        system.add(pm, plane)
+        # three non-collinear springs (undeformed at the initial position) give a regular stiffness
+        for k, (d, kk) in enumerate(zip([(0.0, 0.0, 1.0), (0.9, 0.1, 0.3), (-0.2, 1.1, 0.2)], PM_STIFF[stiff])):
+            anchor = Frame(r_OP=r0 + A @ np.array(d), A_IB=A, name=f"anchor{k}")
+            tpi = TwoPointInteraction(anchor, pm, name=f"tpi{k}")
+            sp = Spring(tpi, kk, l_ref=float(np.linalg.norm(d)), compliance_form=(spring == "compliance"), name=f"spring{k}")
+            system.add(anchor, tpi, sp)
         con = Sphere2Plane(plane, pm, mu=0.0, r=R, name="contact")
-        system.add(pm, plane, anchor, tpi, sp, con, Force(lambda t: f0 + t * (f1 - f0), pm, name="load"))
+        system.add(con, Force(lambda t: f0 + t * (f1 - f0), pm, name="load"))
         system.assemble(options=SolverOptions(compute_consistent_initial_conditions=False))
     return system, pm
 
